@@ -400,6 +400,16 @@ def gen_sound(tier, seed, env_text):
         one_col.append([{"f": "f0", "args": [A("int"), a], "ret": A("int"), "ys": []},
                         {"f": "f0", "args": [A("int"), b], "ret": A("int"), "ys": []}])
     add("two calls that differ in one stored column only (yield / return / one argument)", one_col, [0], ["NONE", "DEFAULT"], [""])
+    dk = lambda *ks: C("dict", *[P(Sx(x), A("int")) for x in ks])  # noqa: E731
+    add("dicts with disjoint key sets at one position (merged key set exceeds the limit)",
+        [[mk_call(f, [dk("a", "b")], dk("a")), mk_call(f, [dk("c", "d")], dk("b")), mk_call(f, [dk("e")], dk("c", "d"))]
+         for f in ("f1", "K.m", "f0")] + [[mk_call("f1", [C("list", dk("a", "b"), dk("c"))], A("int")), mk_call("f1", [C("list", dk("d"))], A("int"))]],
+        [1, 2, 3], ["NONE", "DEFAULT"], [""])
+    ypool = [A("int"), Sx("s"), A("NoneType"), C("list", A("int")), C("tuple", Sx("s"), A("float")), absmodel.T("classobj", "mtfx.shapes.A"),
+             A("mtfx.shapes.A"), C("set", A("int")), C("dict", P(A("int"), Sx("s"))), A("float")]
+    add("one generator run yielding every ordered pair of 10 shapes (a generic first, one of its parameters later, ...)",
+        [[{"f": "g0", "args": [A("int")], "ret": A("NoneType"), "ys": [x, y]}] for x in ypool for y in ypool if x is not y],
+        [0], ["NONE"], [""])
     add("every function kind x random values x every rewriter x k",
         [[mk_call(f, rng.sample(pool, 3), rng.choice(pool)) for _ in range(rng.randint(1, 3))]
          for f in FUNCS for _ in range(4 if q else 60)], [0, 3] if q else [0, 1, 2, 3, 10], RWS if not q else ["DEFAULT", "REC", "RLU2", "MSCB"], [""])
@@ -451,6 +461,12 @@ def gen_same(tier, seed, env_text):
         calls = [{"f": "f1", "args": [absmodel.T("atom", c)], "ret": NONE, "ys": []} for c in cl]
         cases.append({"type": "same", "calls": calls, "k": 0, "rw": "DEFAULT", "variants": variants(6, 4 if q else 8),
                       "family": "crossed multiple inheritance"})
+    tups = [absmodel.T("tuple", "", [absmodel.T("atom", "int")] * n) for n in range(0, 7)]
+    for g in range(6 if q else 60):     # more than five homogeneous tuple shapes, the empty tuple among them
+        ts = [tups[0]] + rng.sample(tups[1:], 5)
+        calls = [{"f": "f1", "args": [t], "ret": NONE, "ys": []} for t in ts]
+        cases.append({"type": "same", "calls": calls, "k": 0, "rw": "DEFAULT", "variants": variants(6, 6 if q else 10),
+                      "family": "six tuple shapes incl. the empty tuple"})
     d1 = absmodel.T("dict", "", [absmodel.T("pair", "", [absmodel.T("str", "a"), absmodel.T("atom", "int")])])
     d2 = absmodel.T("dict", "", [absmodel.T("pair", "", [absmodel.T("str", "b"), absmodel.T("str", "s")])])
     for g in range(4 if q else 40):     # two functions sharing a parameter name with different TypedDict shapes
